@@ -556,6 +556,26 @@ pub fn replay_net(ctx: &NetCtx, c: &Value, rep: &mut Report) {
                         "req": {"url": q.url, "src": q.src, "type": q.alias},
                         "observed": obs.1, "allowed": csp_allowed[qi], "devs": devs, "model": model}));
                 }
+                // check_network_request_subset under the other flag combinations
+                if let Some(sub) = c.get("subset").and_then(|x| x.as_array()).and_then(|a| a.get(qi)).and_then(|o| o.as_object()) {
+                    for (key, allowed) in sub {
+                        let (prev, force) = match key.as_str() {
+                            "<<TRUE, FALSE>>" => (true, false),
+                            "<<FALSE, TRUE>>" => (false, true),
+                            _ => (true, true),
+                        };
+                        rep.evaluations += 1;
+                        let o = match guarded(|| eng.check_network_request_subset(&req, prev, force)) {
+                            Ok(r) => verdict_json(&r),
+                            Err(p) => json!({"panic": p}),
+                        };
+                        if !allowed_has(allowed, &o) && !dev.contains_key(&qi) {
+                            rep.mismatch(json!({"what": format!("subset{}", label), "rules": rules, "tags": tags, "opt": opt,
+                                "previously_matched_rule": prev, "force_check_exceptions": force,
+                                "req": {"url": q.url, "src": q.src, "type": q.alias}, "observed": o, "allowed": allowed, "devs": []}));
+                        }
+                    }
+                }
                 if label.is_empty() {
                     first.push(Some(obs));
                 } else if let Some(Some(orig)) = first.get(qi) {
